@@ -13,6 +13,17 @@ def predict_all(model, game):
     return w, d, r
 
 
+def predict_all_aliased(model, game):
+    """Same three calls with identical teams passed as ONE list object in several slots; None if no duplicate team."""
+    t = lib.ratings_aliased(model, game)
+    if t is None:
+        return None
+    w = model.predict_win(t)
+    d = model.predict_draw(lib.ratings_aliased(model, game))
+    r = model.predict_rank(lib.ratings_aliased(model, game))
+    return w, d, r
+
+
 def plan_spaces(ctx, full_under_k0=None):
     """[(space, cfg name)] of the prediction space G under the prediction configs."""
     sp0 = ["G2", "G3", "G4", "G5", "GP"] + (["G6", "G7", "G8"] if ctx.thorough else [])
